@@ -295,7 +295,7 @@ theorem step_busy {s : St} (h : SInv s) (hb : Busy s) (cfg : Cfg) (e : Ev) (hne 
   · have h1 : s.started = false := by unfold Live at hp; cases hs : s.started <;> simp_all
     have h2 : s.stopping = false := by unfold Live at hp; cases hs : s.stopping <;> simp_all
     by_cases he : e = .start
-    · rw [he]; simp only [step, h1]; exact joinAndSync_busy
+    · rw [he]; simp only [step, h1, h2]; exact joinAndSync_busy
     · by_cases ha : ∃ dt, e = .advance dt
       · obtain ⟨dt, rfl⟩ := ha
         simp only [step]; split
